@@ -56,11 +56,34 @@ def analyse(chk, fn):
         for d in ds:
             decls[d["id"]] = d
 
+    # fields of local aggregates that are assigned exactly once (`block.size = block.last - block.first;`)
+    field_rhs = {}
+    field_count = {}
+    for s_ in C.walk_stmt(fn["body"]):
+        if s_.get("k") == "Bin" and s_.get("op") == "=":
+            a_ = C.strip_casts(s_["a"])
+            if a_.get("k") == "Mem" and C.strip_casts(a_["b"]).get("k") == "Ref" and "id" in C.strip_casts(a_["b"]):
+                key_ = (C.strip_casts(a_["b"])["id"], a_.get("n"))
+                field_count[key_] = field_count.get(key_, 0) + 1
+                field_rhs[key_] = s_["b"]
+        if s_.get("k") == "Bin" and s_.get("op") in ("+=", "-=", "*=", "/="):
+            a_ = C.strip_casts(s_["a"])
+            if a_.get("k") == "Mem" and C.strip_casts(a_["b"]).get("k") == "Ref" and "id" in C.strip_casts(a_["b"]):
+                key_ = (C.strip_casts(a_["b"])["id"], a_.get("n"))
+                field_count[key_] = field_count.get(key_, 0) + 2
+
     def norm(e, depth=0, ids=None):
         """(text, ids of the locals mentioned at any level) with const locals replaced by their initialisers"""
         ids = set() if ids is None else ids
         e = C.strip_casts(e)
         k = e.get("k")
+        if k == "Mem" and C.strip_casts(e["b"]).get("k") == "Ref" and "id" in C.strip_casts(e["b"]):
+            b_ = C.strip_casts(e["b"])
+            ids.add(b_["id"])
+            key_ = (b_["id"], e.get("n"))
+            if field_count.get(key_) == 1 and depth < 8:
+                return norm(field_rhs[key_], depth + 1, ids)[0], ids
+            return "%s#%s.%s" % (b_.get("n"), b_["id"], e.get("n")), ids
         if k == "Ref" and "id" in e:
             ids.add(e["id"])
             d = decls.get(e["id"])
@@ -81,6 +104,91 @@ def analyse(chk, fn):
         if k == "Un":
             return "%s(%s)" % (e.get("op"), norm(e["x"], depth + 1, ids)[0]), ids
         return C.pretty(e), ids
+
+    import re as _re
+    import sympy as _sp
+    _atoms = {}
+
+    def to_sym(text):
+        """sympy value of a normalised term text: integers, + - *, min / max, everything else an atom"""
+        text = text.strip()
+        # tokenise with a small recursive-descent parser over the fully parenthesised text norm() produces
+        pos = [0]
+
+        def atom_for(t):
+            if t not in _atoms:
+                _atoms[t] = _sp.Symbol("k%d" % len(_atoms), integer=True, nonnegative=True)
+            return _atoms[t]
+
+        def parse():
+            # returns a sympy expr for the element starting at pos
+            if text[pos[0]] == "(":
+                depth, i = 0, pos[0]
+                # find the top-level operator inside the parentheses
+                j = i + 1
+                depth = 0
+                op_at = None
+                while j < len(text):
+                    c = text[j]
+                    if c == "(":
+                        depth += 1
+                    elif c == ")":
+                        if depth == 0:
+                            break
+                        depth -= 1
+                    elif depth == 0 and c in "+-*/%" and text[j - 1] == " " and j + 1 < len(text) and text[j + 1] == " " and op_at is None:
+                        op_at = j
+                    j += 1
+                inner = text[i + 1:j]
+                pos[0] = j + 1
+                if op_at is None:
+                    return to_sym(inner)
+                a, b, op = text[i + 1:op_at - 1], text[op_at + 2:j], text[op_at]
+                if op in "+-*":
+                    x, y = to_sym(a), to_sym(b)
+                    return x + y if op == "+" else (x - y if op == "-" else x * y)
+                return atom_for(text[i:j + 1])
+            return None
+        if text.startswith("(") and text.endswith(")"):
+            # only if the outer parentheses match each other
+            depth = 0
+            ok = True
+            for i, c in enumerate(text):
+                if c == "(":
+                    depth += 1
+                elif c == ")":
+                    depth -= 1
+                    if depth == 0 and i != len(text) - 1:
+                        ok = False
+                        break
+            if ok:
+                pos[0] = 0
+                r = parse()
+                if r is not None:
+                    return r
+        m = _re.match(r"^(?:std::)?(min|max)\((.*)\)$", text)
+        if m:
+            inner = m.group(2)
+            depth = 0
+            for i, c in enumerate(inner):
+                if c == "(":
+                    depth += 1
+                elif c == ")":
+                    depth -= 1
+                elif c == "," and depth == 0:
+                    x, y = to_sym(inner[:i]), to_sym(inner[i + 1:])
+                    return _sp.Min(x, y) if m.group(1) == "min" else _sp.Max(x, y)
+        if _re.match(r"^\d+$", text):
+            return _sp.Integer(int(text))
+        return atom_for(text)
+
+    def same_term(a, b):
+        if a == b:
+            return True
+        try:
+            return _sp.simplify(to_sym(a) - to_sym(b)) == 0
+        except Exception:
+            return False
 
     def term(e):
         t, ids = norm(e)
@@ -217,10 +325,14 @@ def analyse(chk, fn):
             if c is None or ini is None or ini.get("init") is None or c.get("k") != "Bin" or c.get("op") not in ("<", "!="):
                 return None
 
-            def split(e):
+            def split(e, depth=0):
                 e = C.strip_casts(e)
                 while e.get("k") == "Ctor" and len(e.get("a", [])) == 1:
                     e = C.strip_casts(e["a"][0])
+                if e.get("k") == "Ref" and e.get("id") in decls and depth < 4:
+                    d_ = decls[e["id"]]
+                    if d_.get("init") is not None and "const" in (d_.get("t") or "") and "iterator" in (d_.get("t") or "").lower():
+                        return split(d_["init"], depth + 1)
                 if e.get("k") == "Call" and e.get("op") == "+" and e.get("a"):
                     args = ([e["obj"]] if e.get("obj") is not None else []) + list(e["a"])
                     if len(args) == 2:
@@ -340,7 +452,7 @@ def analyse(chk, fn):
             if cnt is None:
                 raise AnalysisBroken("%s: the loop that gathers the cells into `%s` was not recognised" % (fn["full"], name))
             texts = sorted(t[0] for t in sizes)
-            okk = bool(sizes) and all(t[0] == cnt[0] for t in sizes)
+            okk = bool(sizes) and all(same_term(t[0], cnt[0]) for t in sizes)
             chk.require(okk, "K8", "%s line %s: the buffer `%s` written by append_dataset holds exactly the cells gathered for "
                         "this block" % (fn["name"], x.get("l"), name), where(x, fn),
                         "the block gathers %s cells, the buffer can have size %s when it is written (`stale` = sized for a "
